@@ -93,6 +93,7 @@ def run(ctx):
   eigh_routine(ctx)
   provenance(ctx)
   siblings(ctx)
+  forwarding(ctx)
 
 
 
@@ -624,6 +625,63 @@ def siblings(ctx):
     ctx.ob('C01.R4', fi.short, 'cast-back', ok,
            'result must be cast back to the dtype of the input matrix', ctx.loc(fi),
            sample='asarray(X, matrix.dtype)')
+
+
+def forwarding(ctx):
+  """R4b: the options of a root computation reach the routine that does the work unchanged.
+  (a) the eigh dispatch of matrix_inverse_pth_root forwards every parameter the two routines have in common;
+  (b) the factory binds every same-named option of matrix_inverse_pth_root to its own configuration value
+      (ridge_epsilon to matrix_epsilon)."""
+  m = ctx.model
+  outer = m.func(MOD, 'matrix_inverse_pth_root')
+  inner = m.func(MOD, 'matrix_inverse_pth_root_eigh')
+  ctx.analysed(outer, inner)
+  ev = evaluator(m, opaque={'matrix_inverse_pth_root_eigh', 'mat_power', 'power_iteration'}, decide=_decider(eigh=True, padding=True, rel=True, size1=False, lobpcg=False))
+  ev.run(outer)
+  calls = [c for c in ev.calls if c.callee.endswith('.matrix_inverse_pth_root_eigh') and c.caller == outer.fq]
+  ctx.need('C01.R4', len(calls), 1, 'eigh dispatch in matrix_inverse_pth_root')
+  po = [a.arg for a in outer.node.args.args + outer.node.args.kwonlyargs]
+  pi = [a.arg for a in inner.node.args.args + inner.node.args.kwonlyargs]
+  for c in calls:
+    for q in pi:
+      if q not in po:
+        continue
+      a = c.args.get(q)
+      ok = a is not None and a is sym('param', outer.short, q)
+      ctx.ob('C01.R4', outer.short, f'eigh dispatch forwards `{q}`', ok,
+             f'matrix_inverse_pth_root(eigh=True) must hand its own `{q}` to matrix_inverse_pth_root_eigh; got `{show(a, maxdepth=3) if a is not None else "<default>"}` '
+             '(a dropped option silently falls back to the callee\'s default)', ctx.loc(outer, c.node) if c.node is not None else ctx.loc(outer),
+             sample=f'{q}={q}')
+  # (b) factory binding
+  fac = m.func(MOD, 'distributed_shampoo')
+  probe = m.func(MOD, 'distributed_shampoo._pmap_compute_preconditioners')
+  ev2 = evaluator(m)
+  sc = ev2.closure_env(probe)
+  parts = []
+  s_ = sc
+  seen = set()
+  while s_ is not None:
+    for v_ in s_.vars.values():
+      for x in walk(v_):
+        if x.op == 'partial' and x not in seen and (fn_name(x.args[0]) == 'matrix_inverse_pth_root' or
+                                                    (x.args[0].op == 'closure' and str(x.args[0].args[0]).endswith('.matrix_inverse_pth_root'))):
+          seen.add(x)
+          parts.append(x)
+    s_ = getattr(s_, 'parent', None)
+  ctx.need('C01.R4', len(parts), 1, 'functools.partial(matrix_inverse_pth_root, ...) in the distributed_shampoo factory')
+  alias = {'ridge_epsilon': 'matrix_epsilon'}
+  fpars = {a.arg for a in fac.node.args.args + fac.node.args.kwonlyargs}
+  for x in parts:
+    kw = dict(x.args[2])
+    for q in po:
+      src = alias.get(q, q)
+      if src not in fpars or q in ('matrix', 'p', 'padding_start', 'prev', 'num_iters', 'error_tolerance'):
+        continue
+      a = kw.get(q)
+      ok = a is not None and a is sym('cfg', 'distributed_shampoo', src)
+      ctx.ob('C01.R4', fac.short, f'factory binds root option `{q}`', ok,
+             f'the root routine must be configured with {q}={src} from the optimizer\'s own options; got `{show(a, maxdepth=3) if a is not None else "<default>"}`',
+             ctx.loc(fac), sample=f'{q}={src}')
 
 
 # -------------------------------------------------------------------- LOBPCG-deflated path
